@@ -46,6 +46,7 @@ def run(chk):
     chk.rule("R1", "each result slot of a component-wise binary operator is one +,-,*,/ node on the corresponding operand slots, left operand left")
     chk.rule("R2", "the post-state of a op= b has the same exact tree as a op b")
     chk.rule("R3", "a relation constructor C(A,B) and its operator twin A op B -> C have identical exact trees")
+    chk.rule("R5", "no relation function casts a computed value to a numeric type narrower than the quantity's own (no hidden loss of precision)")
     chk.rule("R4", "std::abs/cbrt/exp/log/log2/log10/pow/sqrt on a dimensionless scalar is exactly that std function of the stored number")
     chk.assumptions += ["IEEE-754 evaluation of the source as written; the repository's own -ffast-math test build licenses re-association and is outside this claim",
                         "contraction operators (tensor . vector, tensor . tensor) are not component-wise and are decided by C09/C18 instead"]
@@ -108,6 +109,22 @@ def run(chk):
                             chk.violated("R3", tsig, "constructor computes %s, operator computes %s" % (ev.show(cres[0][1])[:200], ev.show(res[0][1])[:200]), short(c.f.get("def_loc", c.f["loc"])))
                     except ev.Inconclusive as x:
                         chk.inconclusive("R3", tsig, str(x), short(c.f["loc"]))
+        # R5: no relation narrows an intermediate below the quantity's own numeric type
+        from ..models import narrowing_casts
+        from .c03 import eval_relation
+        n5 = 0
+        for r in rels:
+            f = r.f
+            sig = "%s(%s)" % (f["name"], ", ".join(strip_cvref(t).replace("PhQ::", "") for t in F.param_types(f)))
+            try:
+                E, flat, target, val = eval_relation(F, r)
+                nar = narrowing_casts(val, T)
+                n5 += 1
+                if nar:
+                    chk.violated("R5", sig, "an intermediate is narrowed to %s (%s) inside a %s relation" % (nar[0][0], ev.show(nar[0][1])[:120], T), short(f.get("def_loc", f["loc"])))
+            except ev.Inconclusive:
+                pass   # evaluated (and reported if inconclusive) by C03
+        chk.holds("R5", "no narrowing detour <%s>" % T, "%d relation functions contain no cast of a computed value to a narrower type" % n5, "") if not any(o["rule"] == "R5" and o["status"] == "violated" and o["instance"].endswith("") and ("<%s>" % T) in o["instance"] for o in chk.obs) else None
         # the component-wise kernels of the four tensor classes themselves (the "value shapes")
         n_ops += tensor_kernels(chk, F, T)
         # R4
